@@ -149,31 +149,52 @@ def pipeline(src: str, want_census: bool = True) -> Dict[str, Any]:
         compile(text, "<regenerated>", "exec")
         out["stage"] = "done"
         if want_census:
-            emitted: List[int] = []
-            iftests: List[int] = []
-            retvals: List[int] = []
-            emit_asg: List[List[Any]] = []
-            for node in ast.walk(fdef):
-                if id(node) in ids and isinstance(node, ast.stmt):
-                    emitted.append(ids[id(node)])
-                if isinstance(node, ast.If) and id(node.test) in ids:
-                    iftests.append(ids[id(node.test)])
-                if isinstance(node, ast.Assign) and id(node) not in ids and len(node.targets) == 1 and isinstance(node.targets[0], ast.Name):
-                    tn = node.targets[0].id
-                    if tn == "__scfg_return_value__":
-                        v = node.value
-                        retvals.append(ids[id(v)] if id(v) in ids else 0)
-                    elif tn.startswith("__scfg_") and isinstance(node.value, ast.Constant) and isinstance(node.value.value, int) and not isinstance(node.value.value, bool):
-                        emit_asg.append([tn, int(node.value.value)])
             exp_asg: List[List[Any]] = []
             for _, b in scfg:
                 if isinstance(b, SyntheticAssignment):
                     exp_asg += [[str(k), int(v)] for k, v in b.variable_assignment.items()]
-            new_names = ({n.id for n in ast.walk(fdef) if isinstance(n, ast.Name)} | {a.arg for a in ast.walk(fdef) if isinstance(a, ast.arg)}) - orig_names
-            outside = sorted(n for n in new_names if not (n.startswith("__scfg_") and n.endswith("__")))
-            # a statement unit of a block that is a Return is emitted either as itself or as an assignment of its value to the return variable
-            out["census"] = {"blocks": blocks, "rets": rets, "tests": tests, "emitted": emitted, "iftests": iftests, "retvals": retvals,
-                             "emit_asg": emit_asg, "exp_asg": exp_asg, "outside": outside, "ret_units": ret_units}
+
+            def census_of(fd: Any) -> Dict[str, Any]:
+                emitted: List[int] = []
+                iftests: List[int] = []
+                retvals: List[int] = []
+                emit_asg: List[List[Any]] = []
+                for node in ast.walk(fd):
+                    if id(node) in ids and isinstance(node, ast.stmt):
+                        emitted.append(ids[id(node)])
+                    if isinstance(node, ast.If) and id(node.test) in ids:
+                        iftests.append(ids[id(node.test)])
+                    if isinstance(node, ast.Assign) and id(node) not in ids and len(node.targets) == 1 and isinstance(node.targets[0], ast.Name):
+                        tn = node.targets[0].id
+                        if tn == "__scfg_return_value__":
+                            v = node.value
+                            retvals.append(ids[id(v)] if id(v) in ids else 0)
+                        elif tn.startswith("__scfg_") and isinstance(node.value, ast.Constant) and isinstance(node.value.value, int) and not isinstance(node.value.value, bool):
+                            emit_asg.append([tn, int(node.value.value)])
+                new_names = ({n.id for n in ast.walk(fd) if isinstance(n, ast.Name)} | {a.arg for a in ast.walk(fd) if isinstance(a, ast.arg)}) - orig_names
+                outside = sorted(n for n in new_names if not (n.startswith("__scfg_") and n.endswith("__")))
+                # a statement unit of a block that is a Return is emitted either as itself or as an assignment of its value to the return variable
+                return {"blocks": blocks, "rets": rets, "tests": tests, "emitted": emitted, "iftests": iftests, "retvals": retvals,
+                        "emit_asg": emit_asg, "exp_asg": exp_asg, "outside": outside, "ret_units": ret_units}
+
+            out["census"] = census_of(fdef)
+            # generating code a second time from the same restructured graph must give the same census (the statement holds for every
+            # regeneration; a generator that consumes or edits the blocks it emits is caught here)
+            out["second"] = {"outcome": "ok", "stage": "", "census": None}
+            try:
+                out["second"]["stage"] = "scfg2ast"
+                fdef2 = SCFG2AST(src, scfg)
+                out["second"]["stage"] = "unparse"
+                text2 = ast.unparse(ast.fix_missing_locations(ast.Module(body=[fdef2], type_ignores=[])))
+                out["second"]["stage"] = "compile"
+                compile(text2, "<regenerated-again>", "exec")
+                out["second"]["stage"] = "done"
+                out["second"]["census"] = census_of(fdef2)
+            except NotImplementedError:
+                out["second"]["outcome"] = "refused-second-time"
+            except Exception as e:
+                out["second"]["outcome"] = "internal"
+                out["second"]["exc"] = exc_sig(e) if not isinstance(e, SyntaxError) else "SyntaxError@generated-code"
     except NotImplementedError as e:
         out["outcome"] = "refused"
         out["exc"] = exc_sig(e)
